@@ -199,6 +199,10 @@ def o_solver_reuse(rng, n=6):
     return O.run_oracle("solver_reuse", O.gen_solver_reuse_inputs(rng, n))
 
 
+def o_solver_full_compact(rng, n=4):
+    return O.run_oracle("solver_full_compact", O.gen_solver_full_compact_inputs(rng, n))
+
+
 def o_caller_ops(rng, n=4):
     return O.run_oracle("caller_ops", O.gen_caller_ops_inputs(rng, n))
 
@@ -500,7 +504,9 @@ PROPS = {
                     "thorough": {"n": 36, "which": ("compact",), "min_nlp": 2}, "search": {"n": 24, "which": ("compact",)}},
                    {"name": "caller_supplied_operations", "fn": o_caller_ops, "quick": {"n": 4}, "thorough": {"n": 24},
                     "search": {"n": 16}},
-                   {"name": "fit_compact", "fn": o_fit("fit_relations"), "quick": {"n": 2}, "thorough": {"n": 12}}],
+                   {"name": "fit_compact", "fn": o_fit("fit_relations"), "quick": {"n": 2}, "thorough": {"n": 12}},
+                   {"name": "solver_full_vs_compact", "fn": o_solver_full_compact, "quick": {"n": 6}, "thorough": {"n": 36},
+                    "search": {"n": 18}}],
         "trusted": [KERNELS["float"]],
     },
     "C09": {
